@@ -176,6 +176,12 @@ func (w *world) setOut(out string) {
 var fileNames = []string{"a", "b", "c"}
 
 func newWorld(rt *rapid.T, p *profile) *world {
+	seed := rapid.Uint64Range(0, 1<<20).Draw(rt, "rngSeed")
+	nClients := rapid.IntRange(p.clients[0], p.clients[1]).Draw(rt, "nClients")
+	return newWorldWith(rt, p, seed, nClients)
+}
+
+func newWorldWith(rt *rapid.T, p *profile, seed uint64, nClients int) *world {
 	w := &world{
 		rt:           rt,
 		p:            p,
@@ -190,7 +196,6 @@ func newWorld(rt *rapid.T, p *profile) *world {
 
 		grantedOwners: map[string]bool{},
 	}
-	seed := rapid.Uint64Range(0, 1<<20).Draw(rt, "rngSeed")
 	w.nfsAlloc = virtual.NewNFSHandleAllocator(&detRNG{ctr: seed * 1000003})
 	setter := func(requested virtual.AttributesMask, attributes *virtual.Attributes) {}
 	files := &outerAllocator{w: w, base: virtual.NewHandleAllocatingFileAllocator(&innerAllocator{w: w}, w.nfsAlloc)}
@@ -234,7 +239,6 @@ func newWorld(rt *rapid.T, p *profile) *world {
 		path.UNIXFormat,
 		nil,
 	)
-	nClients := rapid.IntRange(p.clients[0], p.clients[1]).Draw(rt, "nClients")
 	for i := 0; i < nClients; i++ {
 		w.clients = append(w.clients, &clientSim{idx: i, ownerID: []byte(fmt.Sprintf("client-%d", i))})
 	}
@@ -488,38 +492,21 @@ func (w *world) modelClose(o *openM, why string) {
 
 // modelFreeLock removes lock state. With unlock set, all bytes the
 // lock-owner holds on that file are released (CLOSE, lease expiry,
-// re-registration); FREE_STATEID is only granted when there are none.
+// re-registration: POSIX record-lock semantics, the byte map is keyed by
+// owner and file); FREE_STATEID is only granted when there are none.
 func (w *world) modelFreeLock(l *lockM, why string, unlock bool) {
 	if unlock {
 		if fl := w.locks[l.open.leaf]; fl != nil {
-			// Bytes taken by the same owner through another open of the
-			// same file stay with that other lock state.
-			if !w.ownerHasOtherLockState(l) {
-				if fl.holds(l.ownerKey()) {
-					w.label("locks_released_by:" + strings.Fields(why)[0])
-				}
-				fl.set(l.ownerKey(), 0, lockUnits, 0)
+			if fl.holds(l.ownerKey()) {
+				w.label("locks_released_by:" + strings.Fields(why)[0])
 			}
+			fl.set(l.ownerKey(), 0, lockUnits, 0)
 		}
 	}
 	l.freed = true
 	delete(l.open.locks, l.owner)
 	delete(l.open.inc.byOther, l.other)
 	w.deadSIDs = append(w.deadSIDs, sidRec{sid: mkStateID(l.seq, l.other), fh: l.open.fh, why: why})
-}
-
-// ownerHasOtherLockState reports whether the lock-owner of l has live lock
-// state on the same file through another open.
-func (w *world) ownerHasOtherLockState(l *lockM) bool {
-	for _, o := range l.open.inc.opens {
-		if o == l.open || o.leaf != l.open.leaf {
-			continue
-		}
-		if o2, ok := o.locks[l.owner]; ok && !o2.freed {
-			return true
-		}
-	}
-	return false
 }
 
 func sortedKeys[V any](m map[string]V) []string {
